@@ -243,6 +243,13 @@ func wkt(wkt string) (*SR, error) {
 	if math.IsNaN(sr.Lat0) {
 		sr.Lat0 = sr.Lat1
 	}
+	// OGC/GDAL-style WKT names the central meridian of the conic projections
+	// longitude_of_center (proj4js maps it for Albers and Lambert azimuthal).
+	if math.IsNaN(sr.Long0) && !math.IsNaN(sr.LongC) &&
+		(sr.Name == "Albers_Conic_Equal_Area" || sr.Name == "Lambert_Azimuthal_Equal_Area" ||
+			sr.Name == "Equidistant_Conic") {
+		sr.Long0 = sr.LongC
+	}
 
 	return sr, err
 }
